@@ -212,6 +212,61 @@ example : jsonDecode (toJson {} tPairs)
   rw [C11_roundtrip_ordered_partial {} tPairs (by decide +kernel) (by decide +kernel)]
   decide +kernel
 
+/-! ### the constructor side: `n0dict(text)` / `n0list(text)` -/
+
+/-- **C11, load**: `json.loads(text, object_pairs_hook=n0dict)` accepts exactly the texts
+`json.loads(text)` accepts, fails with the same error otherwise, and builds the same value with
+every object an n0dict (arrays stay plain lists): same keys, same order, same leaves -/
+theorem C11_load_hook (s : Str) : jsonLoadsHookE s = (jsonDecodeE s).map tagN0 :=
+  jsonLoadsHookE_eq s
+
+/-- **`n0dict(text)` = `json.loads(text.strip())`** with nested objects as n0dicts, for every
+non-empty text whose first non-blank character is `{` (also the error: a text that is not JSON
+raises `JSONDecodeError` in both) -/
+theorem C11_load (s r : Str) (hne : s ≠ []) (hs : stripWs s = '{' :: r) :
+    n0dictOfText s = (jsonDecodeE (stripWs s)).map tagN0 := by
+  rw [hs]; exact n0dictOfText_json hne hs
+
+/-- **`n0list(text)` = `json.loads(text.strip())`**, the list itself an n0list, nested objects
+n0dicts, nested arrays plain lists -/
+theorem C11_load_list (s r : Str) (hne : s ≠ []) (hs : stripWs s = '[' :: r) :
+    n0listOfText s = (jsonDecodeE (stripWs s)).map tagTop := by
+  rw [hs]; exact n0listOfText_json hne hs
+
+/-- the other branches: an empty text gives the empty container; a text that starts with
+anything else (`<` = XML for `n0dict` aside) is a `TypeError` -/
+theorem C11_load_dispatch (s : Str) :
+    (s = [] → n0dictOfText s = .ok (.dict .n0 []) ∧ n0listOfText s = .ok (.list .n0 [])) ∧
+    (s ≠ [] → (∀ r, stripWs s ≠ '{' :: r) → (∀ r, stripWs s ≠ '<' :: r) → n0dictOfText s = .error .TypeError) ∧
+    (s ≠ [] → (∀ r, stripWs s ≠ '[' :: r) → n0listOfText s = .error .TypeError) :=
+  ctor_dispatch s
+
+/-- **export, then construct**: `n0dict(x.to_json(…))` / `n0list(x.to_json(…))` rebuild the
+(column-ordered) tree for every option record (`_partial`: depth ≤ 111), with the class tags the
+constructors give -/
+theorem C11_export_construct_partial (o : Opts) (c : Cls) :
+    (∀ kvs, wf (.dict c kvs) = true → depth (.dict c kvs) ≤ 111 →
+      n0dictOfText (toJson o (.dict c kvs)) = .ok (tagN0 (erase (dropEmptyIf o (pairOrder o (.dict c kvs)))))) ∧
+    (∀ xs, wf (.list c xs) = true → depth (.list c xs) ≤ 111 →
+      n0listOfText (toJson o (.list c xs)) = .ok (tagTop (erase (dropEmptyIf o (pairOrder o (.list c xs)))))) :=
+  ⟨fun kvs hw hd => n0dictOfText_toJson o c kvs hw hd, fun xs hw hd => n0listOfText_toJson o c xs hw hd⟩
+
+-- non-vacuity: blanks that `strip()` removes but JSON does not accept, a repeated key, nested
+-- objects and arrays; an invalid text; the dispatch
+example : n0dictOfText (Char.ofNat 12 :: "{\"a\": [1, {\"b\": null}], \"c\": {}, \"a\": [[]]}\n".toList)
+    = .ok (.dict .n0 [(['a'], .list .plain [.list .plain []]), (['c'], .dict .n0 [])]) := by decide +kernel
+example : jsonDecodeE (Char.ofNat 12 :: "{}".toList) = .error .ValueError := by decide +kernel
+example : stripWs (Char.ofNat 12 :: "{\"a\": 1} ".toList) = "{\"a\": 1}".toList := by decide +kernel
+example : n0dictOfText "{\"a\": 1,}".toList = .error .ValueError ∧ n0dictOfText "[1]".toList = .error .TypeError
+    ∧ n0listOfText " [1, {\"k\": [2]}] ".toList = .ok (.list .n0 [.int 1, .dict .n0 [(['k'], .list .plain [.int 2])]])
+    ∧ n0listOfText "{}".toList = .error .TypeError ∧ n0dictOfText [' '] = .error .TypeError := by decide +kernel
+example : n0dictOfText (toJson {} (.dict .plain [(['r'], tPairs)]))
+    = .ok (.dict .n0 [(['r'], .list .plain [.dict .n0 [(['k'], .str ['1']), (['v'], .bool true)],
+             .dict .n0 [(['k'], .int 3), (['v'], .flt ['1', '.', '5'])],
+             .dict .n0 [(['v'], .str ['"', '\\'])]])]) := by
+  rw [(C11_export_construct_partial {} .plain).1 _ (by decide +kernel) (by decide +kernel)]
+  decide +kernel
+
 /-! ### non-vacuity -/
 
 /-- a tree with two pair-layout lists (one nested in a dict of a general list), an empty record,
